@@ -17,9 +17,10 @@ VARIABLES l,        \* next line of the trace
           bad,      \* failed clauses so far: [id, p, r]  (the first MaxBad of them; all are counted in nbad)
           nbad,     \* number of failed clauses per property
           cnt,      \* decisive events per expectation class
-          canon     \* C07: observation of the canonical spelling of the current spelling group
+          canon,    \* C07: observation of the canonical spelling of the current spelling group
+          usedIv    \* C08: half-open intervals <<lo, hi>> of the random stream consumed by secrets so far
 
-vars == <<l, bad, nbad, cnt, canon>>
+vars == <<l, bad, nbad, cnt, canon, usedIv>>
 
 MaxBad == 60
 
@@ -59,6 +60,7 @@ Expect(e) ==
       [] e.op = "NewRawSuite" -> (CASE O!Reading(e.x.name).class = "malformed" -> ErrorX
                                     [] O!Reading(e.x.name).class = "wellformed" -> [class |-> "row"]   \* judged by SuiteFails
                                     [] OTHER -> AnyX)
+      [] e.op \in {"URLRoundTrip", "URLParse", "RandomSecret"} -> [class |-> "row"]      \* judged by URLFails / RandFails
       [] e.op = "DigitsFromStr" -> Value(<<DigitsFromStr(e.x.s)>>)
       [] e.op = "AlgorithmFromStr" -> Value(<<AlgFromStr(e.x.s)>>)
       [] e.op = "AlgString" -> Value(AlgString(e.x.a))
@@ -177,11 +179,11 @@ URLFails(e) ==
               \o F(y.period = NormPeriod(p.kind, p.period), e, "C16", "period does not round-trip (0 meaning 30)")))
     ELSE IF e.op = "URLParse" THEN
         LET x == e.x  y == e.y IN
-        (IF ~x.hasDigits THEN <<>>
+        (IF ~x.hasDigits \/ x.digitsText = <<>> THEN <<>>                  \* an empty value is an absent value
          ELSE IF ~D!AtoiText(x.digitsText) THEN F(~y.ok, e, "C16", "non-numeric digits text accepted")
          ELSE IF D!AtoiNeg(x.digitsText) \/ D!SmallMag(x.digitsText) \notin 0..255 THEN F(~y.ok, e, "C16", "a code length that cannot be represented is accepted (wrapped or truncated)")
          ELSE F(y.ok => y.digits = D!SmallMag(x.digitsText), e, "C16", "the code length returned is not the number written in the URL"))
-     \o (IF ~x.hasPeriod THEN <<>>
+     \o (IF ~x.hasPeriod \/ x.periodText = <<>> THEN <<>>
          ELSE IF ~D!AtoiText(x.periodText) THEN F(~y.ok, e, "C16", "non-numeric period text accepted")
          ELSE IF D!AtoiNeg(x.periodText) THEN F(~y.ok, e, "C16", "a negative period is accepted (wrapped)")
          ELSE IF ~D!ParseUint64OK(D!AtoiMag(x.periodText)) THEN F(~y.ok, e, "C16", "a period beyond 64 bits is accepted")
@@ -197,6 +199,36 @@ FrameFails(e) ==
      THEN F(e.y.glob.pre = e.y.glob.post, e, "C12", "exported defaults or the suite registry changed during the call") ELSE <<>>)
  \o (IF HasField(e.y, "retained")
      THEN F(e.y.retained.before = e.y.retained.after, e, "C12", "a returned value changed after its arguments were overwritten / later calls were made") ELSE <<>>)
+
+(* ---- C08: random secrets are full-length output of the random source ---- *)
+(* e.y.reads = <<<<offset, length>>, ...>> : the reads of the substituted      *)
+(* crypto/rand.Reader made during this call; e.y.bytes = what they delivered  *)
+RECURSIVE SumLens(_, _)
+SumLens(rd, k) == IF k = 0 THEN 0 ELSE SumLens(rd, k - 1) + rd[k][2]
+Ivs(rd) == { <<rd[i][1], rd[i][1] + rd[i][2]>> : i \in { j \in DOMAIN rd : rd[j][2] > 0 } }
+DisjointIv(a, b) == a[2] <= b[1] \/ b[2] <= a[1]
+LinByte(i) == (i * 7 + 13) % 256
+RECURSIVE LinBytes(_, _)
+LinBytes(rd, k) == IF k = 0 THEN <<>> ELSE LinBytes(rd, k - 1) \o [j \in 1..rd[k][2] |-> LinByte(rd[k][1] + j - 1)]
+RECURSIVE SumIv(_)
+SumIv(S) == IF S = {} THEN 0 ELSE LET a == CHOOSE x \in S : TRUE IN (a[2] - a[1]) + SumIv(S \ {a})
+
+RandFails(e) ==
+    IF e.op = "RandomSecret" THEN
+        LET n == SecretSize(e.x.alg)
+            rd == e.y.reads
+        IN  IF n < 0
+            THEN F(e.kind = "error" /\ e.val = <<>> /\ rd = <<>>, e, "C08", "an unsupported hash must yield an error, no secret, and consume nothing")
+            ELSE F(e.kind = "value", e, "C08", "no secret for a supported hash")
+              \o (IF e.kind # "value" THEN <<>> ELSE
+                   F(SumLens(rd, Len(rd)) = n /\ Len(e.y.bytes) = n, e, "C08", "the secret does not take exactly 20/32/64 bytes from the random source")
+                \o F(e.val = B32!EncodeNoPad(e.y.bytes), e, "C08", "the secret is not the upper-case unpadded base32 of exactly the bytes taken from the random source")
+                \o F(B32!Region(e.val) = "accept" /\ B32!KeyOf(e.val) = e.y.bytes, e, "C08", "secret decoding does not map the secret back to the bytes taken")
+                \o F(\A a \in Ivs(rd) : \A b \in (usedIv \cup Ivs(rd)) \ {a} : DisjointIv(a, b), e, "C08", "a byte of the random source is used twice")
+                \o (IF e.x.stream = "lin" THEN F(e.y.bytes = LinBytes(rd, Len(rd)), e, "C08", "bytes differ from the stream content at the offsets read") ELSE <<>>))
+    ELSE IF e.op = "StreamEnd" THEN
+        F(SumIv(usedIv) = e.x.pos, e, "C08", "bytes were taken from the random source that are in no secret (or the reverse)")
+    ELSE <<>>
 
 (* C07: all spellings of one secret are seen alike by an entry point: the    *)
 (* first event of a spelling group (e.grp > 0, e.first) is the canonical     *)
@@ -221,15 +253,18 @@ Init == /\ l = 1
         /\ nbad = [p \in PropIds |-> 0]
         /\ cnt = [c \in {"value", "error", "errorNV", "accept", "refuse", "any", "miss", "badhint", "row"} |-> 0]
         /\ canon = [kind |-> "none"]
+        /\ usedIv = {}
 
 Step == /\ l <= Len(Trace)
         /\ LET e == Trace[l]
                x == Expect(e)
-               new == Fails(e, x) \o GroupFails(e) \o SuiteFails(e) \o HexFieldFails(e) \o URLFails(e) \o FrameFails(e) \o LeakFails(e)
+               new == Fails(e, x) \o GroupFails(e) \o SuiteFails(e) \o HexFieldFails(e) \o URLFails(e) \o FrameFails(e) \o LeakFails(e) \o RandFails(e)
            IN  /\ bad' = IF Len(bad) < MaxBad THEN bad \o new ELSE bad
                /\ nbad' = Bump(nbad, new)
                /\ cnt' = [cnt EXCEPT ![x.class] = @ + 1]
                /\ canon' = IF e.grp > 0 /\ e.first THEN Obs(e) ELSE canon
+               /\ usedIv' = IF e.op = "RandomSecret" /\ e.kind = "value" THEN usedIv \cup Ivs(e.y.reads)
+                            ELSE IF e.op = "StreamEnd" THEN {} ELSE usedIv
         /\ l' = l + 1
 
 Next == Step
